@@ -2,6 +2,7 @@ import Luqum.Driver.Codec
 import Luqum.Model.ParserInst
 import Luqum.Model.Transform
 import Luqum.Model.Naming
+import Luqum.Model.Check
 
 namespace Luqum.Ops
 open Lean (Json)
@@ -120,6 +121,11 @@ def handle (j : Json) : Except String Json := do
     let m : MarkCfg := { okClass := getStrD j "ok_class" "ok", koClass := getStrD j "ko_class" "ko",
                          element := getStrD j "element" "span", parcimonious := getBoolD j "parcimonious" true }
     return Json.mkObj [("str", str (htmlMark m ok ko t))]
+  | "check" =>
+    let t ← getTree (← j.getObjVal? "tree")
+    let zeal ← getNat j "zeal"
+    let errs := luceneErrors zeal t
+    return Json.mkObj [("errors", Json.arr (errs.map str).toArray), ("ok", Json.bool (luceneCheck zeal t))]
   | "echo" =>
     let t ← getTree (← j.getObjVal? "tree")
     return Json.mkObj [("tree", treeJ t)]
